@@ -51,6 +51,7 @@ def check(repo, tier="quick"):
     res.rule("C20.b", "bounded-block bookkeeping (begin/end/bits_remaining/seek preamble/decrement-and-test) is the same program in reader and writer; past-the-end arms are `return 1` vs `raise ValueError iff value is 0`")
     res.rule("C20.c", "bit order and byte advance mirror each other: MSB-first fixed-width integers, shared _next_bit discipline, zero padding to the declared length")
     res.rule("C20.g", "the partially written byte: BitstreamWriter.flush writes the current byte exactly when bits have been written into it (_next_bit != 7) and steps the file back over it; BitstreamWriter.seek calls flush() before it moves the file position and only afterwards resets _byte_offset (from the file), _current_byte (0) and _next_bit (the requested bit) -- so what the reader finds at a position is what was written there")
+    res.rule("C20.h", "negative bounded-block lengths: the bitstream reader treats a block whose remaining count is zero *or negative* as exhausted (it decrements, then tests <= -1); the validator's reader decides exhaustion the same way for every count the two can be given -- an equality test with 0 lets a block begun with a negative length consume real stream bits")
     res.rule("C20.e", "single bit-level layer: the file and the position/accounting fields (_byte_offset, _current_byte, _next_bit, _bits_remaining) are touched only by the primitives (__init__, _read_byte/_write_byte, read_bit/write_bit, seek, flush, bounded_block_begin/end); every multi-bit reader/writer moves data only through read_bit/write_bit, so bounded-block accounting and reader/writer agreement apply to all of them")
     res.rule("C20.d", "signed codes: write_sint = write_uint(abs(v)) + sign bit iff v != 0, read_sint reads the sign iff the magnitude is non-zero, signed length = unsigned length of abs(v) + 1 iff v != 0; exp_golomb_length counts the bits of write_uint's loop")
 
@@ -66,6 +67,8 @@ def check(repo, tier="quick"):
     rule_e(repo, res, R, W, where)
     rule_g(repo, res, R, W, where)
     res.floor("C20.g", 4)
+    rule_h(repo, res, R)
+    res.floor("C20.h", 2)
     from .. import lints as _lints
 
     _lints.rule(repo, res, "C20.f", ['bitstream.io', 'bitstream.exp_golomb'])
@@ -410,3 +413,17 @@ def rule_g(repo, res, R, W, where):
     wb = W.get("_write_byte")
     ok = wb is not None and sum(1 for c in ast.walk(wb) if isinstance(c, ast.Call) and dotted(c.func) == "self._file.write") == 1
     res.check(ok, "C20.g", "writer._write_byte:single-write", "%s:BitstreamWriter._write_byte" % where, "_write_byte must write the completed byte to the file exactly once", by="one self._file.write")
+
+
+def rule_h(repo, res, R):
+    rb = R.get("read_bit")
+    ok = False
+    for n in ast.walk(rb):
+        if isinstance(n, ast.If) and norm(n.test) in ("self._bits_remaining <= -1", "self._bits_remaining < 0"):
+            ok = any(isinstance(x, ast.Return) and isinstance(x.value, ast.Constant) and x.value.value == 1 for x in n.body)
+    res.check(ok, "C20.h", "BitstreamReader.read_bit:exhausted-at-or-below-zero", "vc2_conformance/bitstream/io.py:BitstreamReader.read_bit", "after decrementing, read_bit must return 1 whenever the remaining count is below zero (covers blocks begun with a negative length)", by="decrement, then `<= -1` -> 1")
+    dm, fn = repo.func("decoder.io:read_bitb")
+    st = fn.args.args[0].arg
+    tests = [norm(i.test) for i in ast.walk(fn) if isinstance(i, ast.If)]
+    covers_negative = any(t in ("%s['bits_left'] <= 0" % st, "%s['bits_left'] < 1" % st) for t in tests)
+    res.check(covers_negative, "C20.h", "decoder.io.read_bitb:exhausted-at-or-below-zero", "%s:read_bitb" % dm.rel, "the validator's read_bitb decides exhaustion with `%s`: begun with a negative length (which BitstreamReader treats as exhausted and the property's quantifier includes) it keeps consuming real stream bits, so the two readers disagree on values and positions" % (tests[0] if tests else "?"), by="`bits_left <= 0`")
